@@ -16,7 +16,8 @@ SPEC = dict(
           "operation interleaves index changes of one node with superceding re-uploads of that node's payload (back to back in one server cycle or in one "
           "BATCH); 30% of the sessions have 2 KB socket buffers and any subscriber may stop reading for 3-16 steps so that its server-side queue holds unsent "
           "Messages when a supercede prunes it (a paused reader is audited after it has drained; all drain before the final audit); the state 'node superceded "
-          "while an index update of it is the newest queued mention for a subscriber' is counted in process.  Every session may subscribe (plainly, two patterns at once, or "
+          "while an index update of it is the newest queued mention for a subscriber' is counted in process.  A 'snapbatch' operation is ONE BATCH {index change(s) of one of the sender's nodes; GETDATA of it | the same "
+          "subscription again | a wider subscription covering it} (20% reversed) by a session that may already be subscribed to that node.  Every session may subscribe (plainly, two patterns at once, or "
           "BATCH{quiet subscribe, GETDATA}) to its OWN and to foreign index nodes and unsubscribe (it forgets a list after the pong behind "
           "REMOVEPARAMETERS); it applies every PR_RESULT_INDEXUPDATED string in arrival order (c / i<pos>:<name> / r<pos>:<name>); an insert "
           "beyond the end, a remove that names another entry or lies beyond the end, or a malformed string is a violation by itself.  At every "
@@ -43,7 +44,7 @@ SPEC = dict(
         Leg('memcheck', 'h_index', 'plain', opts={'mode': 'index', 'ops': 80}, quick=48, thorough=960, workers=16, valgrind=True),
     ],
     min_stats={'regress': {'selftest_oracle_fired': 11, 'regress_F15': 1, 'regress_F32': 1, 'regress_structure': 1, 'regress_doc_examples': 1,
-                           'regress_clone_own_subscription': 1, 'regress_clone_twice': 1, 'regress_refusals': 1, 'regress_supercede': 1, 'supercede_sets_with_index_update_as_newest_queued_mention': 30, 'regress_backlog_queue_depth': 20, 'settrees_bounced': 1},
+                           'regress_clone_own_subscription': 1, 'regress_clone_twice': 1, 'regress_refusals': 1, 'regress_supercede': 1, 'regress_snapshot_in_batch': 1, 'supercede_sets_with_index_update_as_newest_queued_mention': 30, 'regress_backlog_queue_depth': 20, 'settrees_bounced': 1},
                'index': {'quiescent_points': 60000, 'comparisons': 600000, 'comparisons_own_node': 250000, 'comparisons_foreign_node': 250000,
                          'comparisons_nonempty_own_node': 80000, 'comparisons_nonempty_foreign_node': 80000, 'entries_compared': 400000,
                          'idxop_c': 15000, 'idxop_i': 80000, 'idxop_r': 15000, 'snapshots_own_node': 7000, 'snapshots_foreign_node': 7000,
@@ -56,6 +57,8 @@ SPEC = dict(
                          'removal_notices': 10000, 'max_op_kinds_in_one_history': 19, 'max_index_length': 12,
                          'histories_with_limits': 800, 'histories_with_deep_index_nodes': 60, 'ordered_inserts_refused_by_child_limit': 500,
                          'ordered_inserts_refused_by_node_limit': 300, 'ordered_inserts_refused_by_depth_limit': 50, 'semantic_checks_refused_insert': 250, 'max_node_depth': 100,
+                         'op_snapbatch': 8000, 'batches_with_index_change_then_snapshot_request_by_subscribed_session': 2000,
+                         'batches_with_index_change_then_snapshot_request_by_unsubscribed_session': 2000, 'batches_with_snapshot_request_then_index_change': 1200,
                          'op_supercede': 8000, 'supercede_sets_on_indexed_node': 10000, 'supercede_sets_on_indexed_node_with_queued_index_update': 1500,
                          'supercede_sets_with_index_update_as_newest_queued_mention': 1200, 'reader_pauses': 1500, 'reader_pauses_small_buffers': 600,
                          'max_subscriber_queue_depth_at_supercede': 10, 'max_server_side_queue_of_paused_reader': 5},
